@@ -325,7 +325,11 @@ class RZILTransformer(Transformer):
             self.ext.hex_reg(
                 [
                     Token("REG_TYPE", name[0]),
-                    Token("SRC_DEST_REG", str(name[1:])),
+                    # Register pairs (R1:0) are twice as wide.
+                    Token(
+                        "SRC_DEST_REG_PAIR" if ":" in name else "SRC_DEST_REG",
+                        str(name[1:]),
+                    ),
                     name,
                 ],
                 is_new=new,
